@@ -131,8 +131,15 @@ func (a *MetricAggregator) Flush(flushInterval time.Duration) {
 						sumSquares = cumulSumSquaresValues[numInThreshold-1]
 					} else {
 						thresholdBoundary = timer.Values[n-numInThreshold]
-						sum = cumulativeValues[n-1] - cumulativeValues[n-numInThreshold-1]
-						sumSquares = cumulSumSquaresValues[n-1] - cumulSumSquaresValues[n-numInThreshold-1]
+						// When the threshold covers all n values there is nothing below it to subtract
+						// (n-numInThreshold-1 would be -1): the sum of the top n values is the total sum.
+						var lowSum, lowSumSquares float64
+						if low := n - numInThreshold - 1; low >= 0 {
+							lowSum = cumulativeValues[low]
+							lowSumSquares = cumulSumSquaresValues[low]
+						}
+						sum = cumulativeValues[n-1] - lowSum
+						sumSquares = cumulSumSquaresValues[n-1] - lowSumSquares
 					}
 					mean = sum / float64(numInThreshold)
 				}
